@@ -174,10 +174,10 @@ def gen_export(r, rich=False, pre=False, many=False):
     return doc, opts, {"sel_part": sel_part, "sel_track": sel_track, "tracks": all_tracks, "parts": part_ids}
 
 
-EXPORT_CORRUPTIONS = ["kind", "version", "version-old", "no-track-selected", "unknown-track", "timestamp", "del-courses", "del-regs", "del-event",
+EXPORT_CORRUPTIONS = ["kind", "version", "version-old", "no-track-selected", "no-track-spread", "unknown-track", "timestamp", "del-courses", "del-regs", "del-event",
                "seg-not-bool", "no-nr", "no-shortname", "min>max", "no-fields", "no-persona", "no-family", "status-str", "no-tracks",
                "no-regtrack", "dangling-choice", "dangling-assigned", "dangling-instr", "choice-str", "no-choices", "no-id", "no-track-shortname",
-               "regs-array", "course-null", "no-course-id-member", "no-instr-member", "parts-array", "tracks-missing-in-part"]
+               "regs-array", "course-null", "no-course-id-member", "no-instr-member", "parts-array", "tracks-missing-in-part", "min>default-max"]
 
 
 def corrupt_export(r, doc, opts, info, what=None):
@@ -205,6 +205,24 @@ def corrupt_export(r, doc, opts, info, what=None):
                 tr["997"] = {"title": "Nacht", "shortname": "Nacht", "num_choices": 2, "min_choices": 1, "sortkey": 8}
         elif len(info["tracks"]) < 2:
             return None
+        opts["track"] = None
+    elif what == "min>default-max":
+        # no maximum given (the default 25 applies) and a minimum above it
+        c = doc["courses"][r.choice(cs)]
+        if r.random() < 0.5:
+            c["max_size"] = None
+        else:
+            c.pop("max_size", None)
+        c["min_size"] = r.choice([26, 27, 30, 40])
+    elif what == "no-track-spread":
+        # several tracks, at most one of them in a part of its own that sorts before or after all others,
+        # and no --track: refused (more than one course track), wherever the tracks sit
+        parts = doc["event"]["parts"]
+        newp = r.choice(["0", "999"])
+        if newp in parts:
+            return None
+        parts[newp] = {"title": "Extra", "shortname": "X", "part_begin": "2222-02-04", "part_end": "2222-02-05", "waitlist_field": None,
+                       "tracks": {"996": {"title": "Nachmittag", "shortname": "Nachmittag", "num_choices": 2, "min_choices": 1, "sortkey": 7}}}
         opts["track"] = None
     elif what == "unknown-track":
         opts["track"] = 999
@@ -529,7 +547,8 @@ def stream_cdedb_read(seed, tier, workdir, stream):
         doc, opts, info = gen_export(r, pre=(i % 5 == 1), many=(i % 10 == 4))
         what = None
         if i % 4 == 3:
-            what = corrupt_export(r, doc, opts, info)
+            # every kind of corruption in turn (a kind that does not apply to this export leaves it valid)
+            what = corrupt_export(r, doc, opts, info, EXPORT_CORRUPTIONS[(i // 4) % len(EXPORT_CORRUPTIONS)])
         elif i % 20 == 6:
             # ids written with a leading plus sign or zero (`u64::from_str` accepts both): another key
             # order, the same numbers
@@ -566,7 +585,7 @@ def lines_cdedb_read(cases, workdir, stream):
         out.append(line("corr", ["C12", "C11", "C13", "C15", "C01", "C05"], "CR", payload, json.dumps(ok, ensure_ascii=False), case=i, stream=stream, feat=feat))
         out.append(line("direct", ["C12"], ok=bool(result.get("index_ok")), what="index fields equal positions", case=i, stream=stream, nontrivial=False))
         if c["corruption"] and c["corruption"] not in ("tracks-missing-in-part?",):
-            refusals = {"kind", "version", "version-old", "no-track-selected", "unknown-track"}
+            refusals = {"kind", "version", "version-old", "no-track-selected", "no-track-spread", "unknown-track"}
             if c["corruption"] in refusals:
                 out.append(line("direct", ["C12", "C15"], ok=False, what=f"export with corruption '{c['corruption']}' was accepted", case=i, stream=stream))
         if c["corruption"] is None:
@@ -703,7 +722,7 @@ def consistent(export, imp, opts, info):
             problems.append(f"registration {rid} neither chose nor instructs course {new}")
     # sizes of active courses: attendees besides instructors, counting both groups
     for cid, cv in imp.get("courses", {}).items():
-        if cv["segments"].get(t) is True and cid in export["courses"]:
+        if cv.get("segments", {}).get(t) is True and cid in export["courses"]:
             c = export["courses"][cid]
             att = 0
             for rid, reg in after["registrations"].items():
@@ -721,7 +740,7 @@ def consistent(export, imp, opts, info):
                 problems.append(f"course {cid} takes place with {att} attendees < min_size {mn}")
             if att > mx and new_att > 0:
                 problems.append(f"course {cid}: {att} attendees > max_size {mx} with {new_att} newly assigned")
-        if cv["segments"].get(t) is False:
+        if cv.get("segments", {}).get(t) is False:
             for rid in named:
                 if imp["registrations"][rid]["tracks"][t]["course_id"] == int(cid):
                     problems.append(f"registration {rid} assigned to cancelled course {cid}")
@@ -809,7 +828,11 @@ def lines_e2e_cde(cases, workdir, stream, binary):
             except Exception as e:
                 out.append(line("direct", ["C16", "C05"], ok=False, what=f"exit 0 but the output file does not parse: {e}", case=i, stream=stream))
                 continue
-            probs = consistent(c["doc"], imp, c["opts"], c["info"])
+            try:
+                probs = consistent(c["doc"], imp, c["opts"], c["info"])
+            except Exception as e:
+                # an import file whose shape the reference import cannot even apply is not consistent
+                probs = [f"import file of unexpected shape ({type(e).__name__}: {e})"]
             c05 = [p for p in probs if "pre-assigned" not in p and "--ignore" not in p]
             c11 = [p for p in probs if p not in c05]
             out.append(line("direct", ["C05"], ok=not c05, what="; ".join(c05[:3]) or "import file consistent with the export", case=i, stream=stream,
@@ -878,6 +901,10 @@ def stream_cli_simple(seed, tier, workdir, stream):
             cs = [c for c in doc["courses"] if c["instructors"]]
             if cs:
                 c = r.choice(cs)
+                free = [p for p in range(len(doc["participants"])) if not any(p in co["instructors"] for co in doc["courses"])]
+                if free and i % 20 == 9:
+                    # … also when another instructor stands between the two entries ([a, b, a])
+                    c["instructors"].append(free[(i // 20) % len(free)])
                 c["instructors"].append(c["instructors"][0])
         cases.append({"doc": doc, "rooms": rooms, "threads": r.choice([1, 1, 2, 4, None]), "print": r.random() < 0.8,
                       "stale": r.random() < 0.3, "output": r.random() < 0.9})
@@ -1230,6 +1257,11 @@ def stream_cli_malformed(seed, tier, workdir, stream):
     for b in range(bases):
         for w in SIMPLE_CORRUPTIONS:
             doc, rooms = gen_simple(r, rooms_mode=1)
+            if b % 2 == 1:
+                # long names with multi-byte characters at every byte offset (the error messages quote names)
+                k = len(cases)
+                for j, x in enumerate(doc["participants"] + doc["courses"]):
+                    x["name"] = "x" * ((k + j) % 5) + "äö€ü𝄞ß" * 8 + " " + x["name"]
             what, doc = corrupt_simple(r, doc, w)
             cases.append({"kind": "simple", "doc": doc, "what": what, "rooms": rooms})
         for w in EXPORT_CORRUPTIONS:
@@ -1359,6 +1391,9 @@ def stream_cli_fault(seed, tier, workdir, stream):
         for fault in ["ok", "missing-dir", "is-dir", "name-too-long", "notdir-component", "dev-full", "readonly-dir", "fsize-limit", "stale-longer"]:
             for pr in [False, True]:
                 cases.append({"fmt": fmt, "fault": fault, "print": pr, "limit": r.choice([1, 50, 200])})
+            # the listing's consumer has gone away (--print into a pipe whose read end is closed): the program
+            # dies in `print!` (status 101) — in particular it never turns an output fault into status 0
+            cases.append({"fmt": fmt, "fault": fault, "print": True, "limit": 50, "closed": True})
     return cases
 
 
@@ -1406,9 +1441,19 @@ def lines_cli_fault(cases, workdir, stream, binary):
                     import resource, signal
                     signal.signal(signal.SIGXFSZ, signal.SIG_IGN)
                     resource.setrlimit(resource.RLIMIT_FSIZE, (lim, lim))
+            closed = bool(c.get("closed"))
             try:
-                p = subprocess.run([binary] + args + [inp, outp], stdout=subprocess.PIPE, stderr=subprocess.PIPE, timeout=30, preexec_fn=preexec)
-                rc, so, se = p.returncode, p.stdout.decode("utf-8", "replace"), p.stderr.decode("utf-8", "replace")
+                if closed:
+                    pr_, pw_ = os.pipe()
+                    os.close(pr_)
+                    try:
+                        p = subprocess.run([binary] + args + [inp, outp], stdout=pw_, stderr=subprocess.PIPE, timeout=30, preexec_fn=preexec)
+                    finally:
+                        os.close(pw_)
+                    rc, so, se = p.returncode, "", p.stderr.decode("utf-8", "replace")
+                else:
+                    p = subprocess.run([binary] + args + [inp, outp], stdout=subprocess.PIPE, stderr=subprocess.PIPE, timeout=30, preexec_fn=preexec)
+                    rc, so, se = p.returncode, p.stdout.decode("utf-8", "replace"), p.stderr.decode("utf-8", "replace")
             except subprocess.TimeoutExpired:
                 rc, so, se = None, "", "timeout"
             finally:
@@ -1423,17 +1468,21 @@ def lines_cli_fault(cases, workdir, stream, binary):
             if rc == 0:
                 ok = complete
                 what = f"{c['fmt']}/{fault}/print={c['print']}: exit 0 and the output file is {'complete' if complete else 'MISSING OR INCOMPLETE'}"
+            elif closed:
+                # the only acceptable non-zero outcome with the consumer gone is the death in `print!`
+                ok = rc == 101 and "failed printing to stdout" in se
+                what = f"{c['fmt']}/{fault}/print into a closed pipe: exit {rc}; stderr tail {se[-200:]}"
             else:
                 expect_fail = fault not in ("ok", "stale-longer", "readonly-dir-as-root")
                 ok = expect_fail and rc is not None and rc != 0 and "panicked" not in se
                 what = f"{c['fmt']}/{fault}/print={c['print']}: exit {rc}; stderr tail {se[-200:]}"
-            if c["print"] and rc is not None:
+            if c["print"] and rc is not None and not closed:
                 ok = ok and so.startswith("The assignment is:")
-            out.append(line("direct", ["C16"], ok=ok, what=what, case=i, stream=stream, feat=[f"{fault}:exit={rc}"]))
+            out.append(line("direct", ["C16"], ok=ok, what=what, case=i, stream=stream, feat=[f"{fault}:exit={rc}"] + (["stdout-closed"] if closed else [])))
             # decision logic of the output stage as modelled in Lean
             created = os.path.isfile(outp) or outp == "/dev/full"
             out.append(line("corr", ["C16"], "OS", json.dumps({"created": fault in ("ok", "dev-full", "fsize-limit", "stale-longer", "readonly-dir-as-root"),
-                                                                "written": fault in ("ok", "stale-longer", "readonly-dir-as-root"), "print": c["print"]}),
+                                                                "written": fault in ("ok", "stale-longer", "readonly-dir-as-root"), "print": c["print"], "closed": closed}),
                             f"exit={rc} listing={'true' if (c['print'] and so.startswith('The assignment is:')) else 'false'}", case=i, stream=stream))
     finally:
         shutil.rmtree(d, ignore_errors=True)
